@@ -310,6 +310,11 @@ func (s *socket) onDrain() {
 	if seqFn, err := s.sentCallbackFn.Shift(); err == nil {
 		socket_log.Debug("executing batch send callback")
 		for _, fn := range seqFn {
+			// callbacks of a session that has closed are dropped, not run late: the session can have been
+			// closed since the batch went out - by an earlier callback of this very group, for one
+			if s.ReadyState() == "closed" {
+				return
+			}
 			fn(s.Transport())
 		}
 	}
